@@ -597,6 +597,12 @@ fn compare_lookups<P: Payload + Clone>(st: &mut Stats, ctx: &Ctx, b: &Bundle, pr
     }
 }
 
+/// `--via-clone-from` (read here, not in main.rs: main.rs holds the bundle extractor and is part of the bundle cache key)
+fn via_clone_from() -> bool {
+    static ON: std::sync::OnceLock<bool> = std::sync::OnceLock::new();
+    *ON.get_or_init(|| std::env::args().any(|a| a == "--via-clone-from"))
+}
+
 /// Result of running one bundle (fresh, or after a prefix + clear()).
 fn run_bundle<P: Payload + Clone>(ctx: &Ctx, b: &Bundle, prefix: &Option<Vec<Call>>, prog: &Progress, st: &mut Stats) {
     let keep = ctx.opts.keep;
@@ -635,6 +641,17 @@ fn run_bundle<P: Payload + Clone>(ctx: &Ctx, b: &Bundle, prefix: &Option<Vec<Cal
             let p = if c.op == "append_value" || ["append", "prepend", "insert_after", "insert_before"].contains(&c.op.as_str()) { "C05" } else { "C05" };
             st.violation(keep, Finding { prop: p.into(), kind: "path-call-failed".into(), detail: format!("valid call #{} of the path ({} a={} b={}) -> {} {}", i + 1, c.op, c.a, c.b, d.class, d.panic_msg), case: case_json(b, prefix, Some(c), json!("Ok"), json!(d)) });
             return;
+        }
+    }
+    // the state under test is reached through `dst.clone_from(&arena)` onto a USED destination (the previous bundle's arena on
+    // this worker): every comparison below then speaks about an arena that came to be that way (a hand-written clone_from
+    // that forgets a link, a stamp or a free-list end shows in the property whose comparison reads it)
+    if via_clone_from() && prefix.is_none() {
+        if let Some(su) = (&mut sim as &mut dyn std::any::Any).downcast_mut::<Sim<u32>>() {
+            let mut dst = ctx.scratch.borrow_mut().take().unwrap_or_else(indextree::Arena::new);
+            dst.clone_from(&su.arena);
+            let old = std::mem::replace(&mut su.arena, dst);
+            *ctx.scratch.borrow_mut() = Some(old);
         }
     }
     let base = sim.proj();
